@@ -59,6 +59,15 @@ class Config:
     def connected(self, a, b):
         return self.topology[a][b] == 1
 
+    @property
+    def symmetric(self):
+        """The documented assumption on topologies.  Where it does not hold
+        (the loader does not enforce it) only orientation-free clauses are
+        evaluated."""
+        n = len(self.topology)
+        return all(self.topology[i][j] == self.topology[j][i]
+                   for i in range(n) for j in range(n))
+
     def vector_size(self):
         return (self.bounds[0] + self.bounds[1] + 6 + len(self.os)
                 + len(self.services) + len(self.processes))
